@@ -932,3 +932,383 @@ def returned_object_fields(mod, fn, depth=0):
                 return None
             result = (result[0], result[1] & got[1])
     return result
+
+
+# ======================================================================================== iteration order (C13: restart frame)
+# A dict / list / queue valued state attribute whose iteration order the class observes (for-loops, list(...),
+# next(iter(...)), .items()/.values()/.keys(), comprehensions) must come back from dump -> load in the same sequence
+# order.  Operations that destroy or change sequence order on the encoder -> decoder path of such an attribute:
+ORDER_FUNCS = {'sorted', 'set', 'frozenset', 'reversed'}
+ORDER_ATTR_FUNCS = {'sort', 'unique', 'argsort', 'shuffle', 'permutation', 'permuted', 'flip', 'flipud', 'fliplr'}
+ORDER_METHODS = {'sort', 'reverse', 'shuffle'}
+ORDER_VIEWS = {'items', 'values', 'keys', 'queue'}
+
+
+def backward_slice(body, seeds, sn=None):
+    """expressions of `body` that flow into the seed expressions (flow-insensitive, through locals, stores into relevant
+    containers, calls on relevant objects and loops whose targets are relevant)"""
+    stmts = list(ordered_stmts(body))
+    relevant, exprs = set(), list(seeds)
+    changed, seen = True, set()
+
+    def root_of(x):
+        while isinstance(x, (ast.Attribute, ast.Subscript, ast.Call)):
+            x = x.func if isinstance(x, ast.Call) else x.value
+        return x
+    while changed:
+        changed = False
+        for e in exprs:
+            for n in ast.walk(e):
+                if isinstance(n, ast.Name) and n.id != sn and n.id not in relevant:
+                    relevant.add(n.id)
+                    changed = True
+        for s in stmts:
+            if id(s) in seen:
+                continue
+            add = []
+            if isinstance(s, (ast.Assign, ast.AnnAssign, ast.AugAssign)):
+                tg = s.targets if isinstance(s, ast.Assign) else [s.target]
+                for t in tg:
+                    for tt in (list(t.elts) if isinstance(t, (ast.Tuple, ast.List)) else [t]):
+                        r = root_of(tt)
+                        if isinstance(r, ast.Name) and r.id in relevant and r.id != sn:
+                            if s.value is not None:
+                                add.append(s.value)
+                            if not isinstance(tt, ast.Name):
+                                add.append(tt)
+            elif isinstance(s, ast.Expr) and isinstance(s.value, ast.Call):
+                r = root_of(s.value.func)
+                if isinstance(r, ast.Name) and r.id in relevant and r.id != sn:
+                    add.append(s.value)
+            elif isinstance(s, ast.For):
+                if {n.id for n in ast.walk(s.target) if isinstance(n, ast.Name)} & relevant:
+                    add.append(s.iter)
+            if add:
+                seen.add(id(s))
+                exprs += add
+                changed = True
+    return exprs, relevant
+
+
+def order_ops(nodes, mappings=True):
+    """order-destroying operations syntactically present in the given AST nodes: [(description, node)];
+    mappings=False: the value is a sequence (list / queue / array rows), for which sort_keys is harmless"""
+    out = []
+    for root in nodes:
+        for n in ast.walk(root):
+            if isinstance(n, ast.Call):
+                f = n.func
+                for k in n.keywords:
+                    if mappings and k.arg == 'sort_keys' and not (isinstance(k.value, ast.Constant) and not k.value.value):
+                        out.append(('%s(..., sort_keys=%s) re-orders every mapping it serialises' % (ast.unparse(f), ast.unparse(k.value)), n))
+                if isinstance(f, ast.Name) and f.id in ORDER_FUNCS:
+                    out.append(('%s(...) does not keep the sequence order: %s' % (f.id, ast.unparse(n)[:80]), n))
+                elif isinstance(f, ast.Attribute):
+                    base = ast.unparse(f.value)
+                    if f.attr in ORDER_ATTR_FUNCS and base.split('.')[0] in ('np', 'numpy', 'jnp', 'random', 'rng'):
+                        out.append(('%s changes the sequence order' % ast.unparse(n)[:80], n))
+                    elif f.attr in ORDER_METHODS and base.split('.')[0] not in ('np', 'numpy', 'jnp'):
+                        out.append(('in-place %s() changes the sequence order: %s' % (f.attr, ast.unparse(n)[:80]), n))
+            elif isinstance(n, ast.Subscript) and isinstance(n.slice, ast.Slice) and n.slice.step is not None:
+                st = n.slice.step
+                if isinstance(st, ast.UnaryOp) and isinstance(st.op, ast.USub):
+                    out.append(('reversing slice %s' % ast.unparse(n)[:60], n))
+    return out
+
+
+def mapping_like(cm, path):
+    """False only when the attribute is known to be a sequence (list / queue); mappings are re-ordered by sort_keys"""
+    oc = cm.owned_class(path[0]) if len(path) == 2 else cm
+    if oc is None:
+        return True
+    name = path[-1]
+    for m2, c2 in oc.mro:
+        ann = c2.annotations.get(name)
+        if ann is not None:
+            txt = ast.unparse(ann)
+            if any(k in txt for k in ('Dict', 'dict', 'Mapping')):
+                return True
+            if any(k in txt for k in ('List', 'list', 'Sequence', 'Queue', 'deque', 'ndarray')):
+                return False
+    seq = mp = False
+    for m2, fn, rhs, ann in oc.attr_assignments().get(name, []):
+        if rhs is None:
+            continue
+        txt = ast.unparse(rhs)
+        if isinstance(rhs, (ast.List, ast.ListComp)) or txt.startswith(('queue.Queue(', 'Queue(', 'list(', 'collections.deque(', 'deque(')):
+            seq = True
+        else:
+            mp = True
+    return not (seq and not mp)
+
+
+def data_order_ops(fn, mappings=True):
+    """order-changing operations on the data path of a helper function: expressions flowing into its return values
+    (branch conditions such as `set(dir(o)).issuperset(..)` only select a path, they do not touch the data)"""
+    rets = [n.value for n in ast.walk(fn) if isinstance(n, ast.Return) and n.value is not None]
+    if rets:
+        exprs, _ = backward_slice(fn.body, rets)
+        return order_ops(exprs, mappings)
+    nodes = []
+    for s in ordered_stmts(fn.body):
+        if isinstance(s, (ast.If, ast.While, ast.Assert)):
+            continue
+        nodes += [h for h in header_exprs(s) if not isinstance(s, (ast.For,)) or h is s.iter]
+    return order_ops(nodes, mappings)
+
+
+def closure_functions(mod, fn, depth=0, seen=None):
+    """fn and the repo functions / methods of repo classes it references (serialiser closures, json encoder classes)"""
+    seen = seen if seen is not None else set()
+    key = (mod.path, fn.lineno, getattr(fn, 'name', '?'))
+    if key in seen or depth > 3:
+        return []
+    seen.add(key)
+    out = [(mod, fn)]
+    for n in ast.walk(fn):
+        if isinstance(n, (ast.Name, ast.Attribute)) and isinstance(getattr(n, 'ctx', None), ast.Load):
+            src = ast.unparse(n)
+            if src.split('.')[0] in ('self', 'cls'):
+                continue
+            r = resolve_function(mod, src)
+            if r is None:
+                continue
+            if r[0] == 'func':
+                out += closure_functions(r[1], r[2], depth + 1, seen)
+            elif r[0] == 'class':
+                # only classes used as helpers (encoders / decoders): those with a default/decode/object_hook-like protocol
+                if any(mn in r[2].methods for mn in ('default', 'decode', 'encode', 'object_hook')):
+                    for mn, mfn in r[2].methods.items():
+                        out += closure_functions(r[1], mfn, depth + 1, seen)
+    return out
+
+
+def _referenced_closure(mod, node):
+    """closures of the repo functions / helper classes (json encoders, object hooks) referenced inside `node`"""
+    out, seen = [], set()
+    for n in ast.walk(node):
+        if isinstance(n, (ast.Name, ast.Attribute)) and isinstance(getattr(n, 'ctx', None), ast.Load):
+            src = ast.unparse(n)
+            if src.split('.')[0] in ('self', 'cls'):
+                continue
+            r = resolve_function(mod, src)
+            if r is None:
+                continue
+            if r[0] in ('func', 'method'):
+                out += closure_functions(r[1], r[-1], 0, seen)
+            elif r[0] == 'class' and any(mn in r[2].methods for mn in ('default', 'decode', 'encode', 'object_hook')):
+                for mn, mfn in r[2].methods.items():
+                    out += closure_functions(r[1], mfn, 0, seen)
+    return out
+
+
+def _order_observed_own(cm):
+    """{(attr,): [where]} attributes of the class whose iteration order is observed outside __init__/dump/load"""
+    out = {}
+    for mname, (m2, c2, fn) in cm.methods.items():
+        if mname in SKIP_FOR_MUT or mname in ('dump',) or mname in cm.properties:
+            continue
+        sn = cm.selfname(fn)
+        if sn is None:
+            continue
+
+        def base_path(e):
+            # strip .items()/.values()/.keys() calls and .queue views
+            while True:
+                if isinstance(e, ast.Call) and isinstance(e.func, ast.Attribute) and e.func.attr in ORDER_VIEWS and not e.args:
+                    e = e.func.value
+                elif isinstance(e, ast.Attribute) and e.attr in ORDER_VIEWS:
+                    e = e.value
+                else:
+                    break
+            if isinstance(e, ast.Subscript):
+                return None
+            return cm.path_of(e, sn, cm.aliases(fn))
+        for n in ast.walk(fn):
+            cands = []
+            if isinstance(n, ast.For):
+                cands.append(n.iter)
+            elif isinstance(n, (ast.ListComp, ast.SetComp, ast.DictComp, ast.GeneratorExp)):
+                cands += [g.iter for g in n.generators]
+            elif isinstance(n, ast.Call) and isinstance(n.func, ast.Name) and n.func.id in ('list', 'tuple', 'iter', 'next', 'enumerate', 'zip') and n.args:
+                cands += list(n.args)
+            for c in cands:
+                p = base_path(c)
+                if p:
+                    out.setdefault(p[:1], []).append('%s: %s' % (mname, ast.unparse(c)[:60]))
+    return out
+
+
+def order_observed(cm):
+    """{path: [where]}: own attributes, plus (top, sub) for owned objects of a statically known repo class"""
+    out = dict(_order_observed_own(cm))
+    tops = set(cm.attr_assignments())
+    for top in tops:
+        oc = cm.owned_class(top)
+        if oc is not None:
+            for p, where in _order_observed_own(oc).items():
+                out.setdefault((top,) + p, []).extend('%s.%s' % (oc.ci.qualname, w) for w in where)
+    return out
+
+
+def dump_order_ops(cm, path):
+    """order-destroying operations applied in `dump` (and in the serialisers it calls) to the value of the attribute path"""
+    m2, c2, fn = cm.methods['dump']
+    sn = cm.selfname(fn)
+    sl = cm.dump_slice()
+    top = path[0]
+    # locals of dump tainted by the attribute
+    tainted = set()
+
+    def mentions(e):
+        for n in ast.walk(e):
+            if isinstance(n, ast.Attribute):
+                p = cm.path_of(n, sn, {})
+                if p and p[0] == top:
+                    return True
+            if isinstance(n, ast.Name) and n.id in tainted:
+                return True
+        return False
+    changed = True
+    while changed:
+        changed = False
+        for s in ordered_stmts(fn.body):
+            if isinstance(s, (ast.Assign, ast.AnnAssign)) and s.value is not None and mentions(s.value):
+                for t in (s.targets if isinstance(s, ast.Assign) else [s.target]):
+                    if isinstance(t, ast.Name) and t.id not in tainted:
+                        tainted.add(t.id)
+                        changed = True
+    found, scanned = [], []
+    mp = mapping_like(cm, path)
+    for e in sl['exprs']:
+        for desc, node in order_ops([e], mp):
+            if mentions(node):
+                found.append('dump: ' + desc)
+        for n in ast.walk(e):
+            if isinstance(n, ast.Call) and any(mentions(a) for a in list(n.args) + [k.value for k in n.keywords]):
+                for (mm, ff) in _referenced_closure(m2, n):
+                    scanned.append('%s.%s' % (mm.dotted.split('.')[-1], ff.name))
+                    found += ['%s.%s: %s' % (mm.dotted.split('.')[-1], ff.name, d) for d, _ in data_order_ops(ff, mp)]
+            if isinstance(n, ast.Call) and isinstance(n.func, ast.Attribute) and n.func.attr == 'dump':
+                p = cm.path_of(n.func.value, sn, {})
+                oc = cm.owned_class(top) if p == (top,) else None
+                if oc is not None and 'dump' in oc.methods and len(path) == 2:
+                    found += ['%s.dump: %s' % (oc.ci.qualname, d) for d in dump_order_ops(oc, path[1:])[0]]
+                    scanned.append(oc.ci.qualname + '.dump')
+    return sorted(set(found)), sorted(set(scanned))
+
+
+def restore_site(mod, call, depth=0):
+    """(ModuleInfo, FunctionDef, local name, constructor Call) of the function that builds the object produced by `call`"""
+    if depth > 4:
+        return None
+    f = call.func
+    if isinstance(f, ast.Attribute) and isinstance(f.value, ast.Call):
+        r = resolve_function(mod, ast.unparse(f.value.func))
+        if r and r[0] == 'class':
+            fm = sigbind.find_method(r[1], r[2], f.attr)
+            if fm:
+                return _restore_site_fn(fm[0], fm[2], depth + 1)
+        return None
+    r = resolve_function(mod, ast.unparse(sigbind.strip_subscript(f)))
+    if r is None:
+        return None
+    if r[0] in ('func', 'method'):
+        return _restore_site_fn(r[1], r[-1], depth + 1)
+    return None
+
+
+def _restore_site_fn(mod, fn, depth):
+    rets = [n for n in ast.walk(fn) if isinstance(n, ast.Return) and n.value is not None]
+    if len(rets) != 1:
+        return None
+    v = rets[0].value
+    if isinstance(v, ast.Call):
+        return restore_site(mod, v, depth)
+    if isinstance(v, ast.Name):
+        ctor = [n for n in ast.walk(fn) if isinstance(n, ast.Assign) and len(n.targets) == 1 and isinstance(n.targets[0], ast.Name)
+                and n.targets[0].id == v.id and isinstance(n.value, ast.Call)]
+        if len(ctor) == 1:
+            return (mod, fn, v.id, ctor[0].value)
+    return None
+
+
+def load_order_ops(cm, path):
+    """order-destroying operations on the data that `load` puts into the attribute path; also key-type facts.
+
+    -> (found [str], scanned [str], keyinfo dict | None) or None when the restoring code cannot be located"""
+    m2, c2, fn = cm.methods['load']
+    sn = cm.selfname(fn)
+    top = path[0]
+    mp = mapping_like(cm, path)
+    if len(path) == 1:
+        seeds = []
+        for s in ordered_stmts(fn.body):
+            hdr = header_exprs(s)
+            if isinstance(s, (ast.If, ast.While, ast.For, ast.With, ast.Try)):
+                continue
+            eff = cm.effects_of(hdr, fn)
+            if any(w[0] == top for w in eff.W):
+                seeds.append(s.value if isinstance(s, (ast.Assign, ast.AnnAssign, ast.Expr, ast.AugAssign)) and getattr(s, 'value', None) is not None else s)
+        if not seeds:
+            return None
+        exprs, _ = backward_slice(fn.body, seeds, sn)
+        found = ['load: ' + d for d, _ in order_ops(exprs, mp)]
+        scanned = ['%s.load' % cm.ci.qualname]
+        for e in exprs:
+            for (mm, ff) in _referenced_closure(m2, e):
+                scanned.append('%s.%s' % (mm.dotted.split('.')[-1], ff.name))
+                found += ['%s.%s: %s' % (mm.dotted.split('.')[-1], ff.name, d) for d, _ in data_order_ops(ff, mp)]
+        return sorted(set(found)), sorted(set(scanned)), None
+    sub = path[1]
+    site = None
+    for n in ast.walk(fn):
+        if isinstance(n, ast.Assign) and any(cm.path_of(t, sn, {}) == (top,) and isinstance(t, ast.Attribute) for t in n.targets) and isinstance(n.value, ast.Call):
+            site = restore_site(m2, n.value)
+    if site is None:
+        return None
+    rm, rfn, var, ctor = site
+    seeds = []
+    for n in ast.walk(rfn):
+        if isinstance(n, ast.Assign):
+            for t in n.targets:
+                if isinstance(t, ast.Attribute) and isinstance(t.value, ast.Name) and t.value.id == var and t.attr == sub:
+                    seeds.append(n.value)
+    for k in ctor.keywords:
+        if k.arg in (sub, sub.lstrip('_')):
+            seeds.append(k.value)
+    if not seeds:
+        return None
+    exprs, relevant = backward_slice(rfn.body, seeds)
+    found = ['%s.%s: %s' % (rm.dotted.split('.')[-1], rfn.name, d) for d, _ in order_ops(exprs, mp)]
+    # key type: entries stored under the loop's key variable of a json mapping must be converted back
+    keyinfo = {'stores': []}
+    seed_names = {x.id for sd in seeds for x in ast.walk(sd) if isinstance(x, ast.Name)}
+    for s in ordered_stmts(rfn.body):
+        if isinstance(s, ast.For) and isinstance(s.iter, ast.Call) and isinstance(s.iter.func, ast.Attribute) and s.iter.func.attr == 'items' \
+                and isinstance(s.target, ast.Tuple) and isinstance(s.target.elts[0], ast.Name):
+            kname = s.target.elts[0].id
+            for b in ordered_stmts(s.body):
+                if isinstance(b, ast.Assign):
+                    for t in b.targets:
+                        if isinstance(t, ast.Subscript) and isinstance(t.value, ast.Name) and t.value.id in seed_names:
+                            ksrc = ast.unparse(t.slice)
+                            keyinfo['stores'].append({'key_expr': ksrc, 'loop_key': kname,
+                                                      'converted': isinstance(t.slice, ast.Call) and isinstance(t.slice.func, ast.Name)
+                                                      and t.slice.func.id in ('int', 'float') and kname in ksrc,
+                                                      'raw': isinstance(t.slice, ast.Name) and t.slice.id == kname})
+    return sorted(set(found)), ['%s.%s' % (rm.dotted.split('.')[-1], rfn.name)], keyinfo
+
+
+def int_keyed(cm, path):
+    """True when the attribute path is declared as a mapping with int keys (annotation Dict[int, ...])"""
+    oc = cm.owned_class(path[0]) if len(path) == 2 else cm
+    if oc is None:
+        return False
+    name = path[-1]
+    for m2, c2 in oc.mro:
+        ann = c2.annotations.get(name)
+        if ann is not None:
+            txt = ast.unparse(ann).replace(' ', '')
+            return 'Dict[int' in txt or 'dict[int' in txt or 'Mapping[int' in txt
+    return False
